@@ -14,7 +14,8 @@
 
      Send      c, n   the sender handed message number Len(cids)+1 to its transport;
                       c = content class of the message (equal bytes <=> equal c),
-                      n = number of bytes it occupies on the stream
+                      n = number of bytes it occupies on the stream (0: the sender's transport
+                      dropped it -- it can then never be delivered intact, which T1 reports)
      Feed      n      the next n bytes of the stream reached the reader's buffer
                       (any segmentation: a Feed may end inside a message or span several)
      Close            the peer closed; nothing is fed afterwards (end-of-stream)
@@ -102,7 +103,7 @@ EndRead(m, ev) ==
 Step(m, ev) ==
   IF m.v # "ok" THEN m
   ELSE CASE ev.e = "Send" ->
-              IF ev.n < 1 THEN Fail(m, "H/empty-send")
+              IF ev.n < 0 THEN Fail(m, "H/negative-send")   \* n = 0: nothing was put on the stream for it
               ELSE [m EXCEPT !.cids = Append(m.cids, ev.c), !.ends = Append(m.ends, Total(m) + ev.n)]
          [] ev.e = "Feed" ->
               IF m.closed \/ m.fed + ev.n > Total(m) THEN Fail(m, "H/feed-of-bytes-never-sent")
